@@ -1,3 +1,4 @@
 import Reduino.Driver.Host
 import Reduino.Driver.Core
 import Reduino.Driver.Tool
+import Reduino.Driver.Fw
